@@ -28,7 +28,7 @@ ASSUMPTIONS = [
     "listed identically",
 ]
 
-FAULT_KINDS = ["dangling", "loop", "fifo", "sock", "phantom", "enoent", "eacces", "dotdot", "dotbs", "bsbs"]
+FAULT_KINDS = ["dangling", "loop", "fifo", "sock", "phantom", "enoent", "eacces", "dotdot", "dotbs", "bsbs", "linktofile"]
 FORMS = ["gopher", "gophers", "gplus", "gdollar", "http", "https", "wap", "gemini", "spartan"]
 
 
@@ -61,6 +61,11 @@ def _case(draw):
         base = draw(st.sampled_from(["", "", "."])) + base + draw(st.sampled_from(
             ["", "", "", ".gophermap", ".html", ".mbox", ".pyg", ".tal", ".zip", ".gz", ".txt", ".abstract"]))
         name = _fault_name(kind, base)
+        if kind in ("dangling", "loop", "fifo", "sock", "linktofile") and draw(st.integers(0, 5)) == 0:
+            # the names the directory handlers look for themselves
+            name = draw(st.sampled_from([".cap", ".cap", ".names", ".Links", ".abstract", "gophermap", ".cache.pygopherd.dir"]))
+        if kind == "linktofile" and name != ".cap":
+            kind = "dangling"
         if name in used:
             name = "q" + name
         if name in used:
@@ -109,6 +114,10 @@ def _spec(case, with_faults):
         elif kind == "loop":
             if with_faults:
                 spec.append([pre + name, "l", name])
+        elif kind == "linktofile":
+            # '.cap' (where per-file overrides are looked up) exists but is a link to a regular file, not a directory
+            if with_faults:
+                spec.append([pre + name, "l", case["good"][0][0] + (".html" if case["good"][0][1] == "h" else "") if case["good"][0][1] != "d" else "nonexistent-target"])
         elif kind in ("fifo", "sock"):
             if with_faults:
                 spec.append([pre + name, kind, None])
